@@ -227,6 +227,76 @@ def run(ctx):
     if r.n == 0:
         r.vacuous_ok = True
         r.note("no sentinel-drawing scan loops in the resolver any more")
+
+    # ---------------------------------------------------------------- R8
+    r = ctx.rule("C03-R8", "OWNER", "options after the command path never change the selection: the option pass hands "
+                 "on exactly the command it was given", reference=2)
+    po = res.methods.get("process_options")
+    if po is None:
+        r.vacuous_ok = True
+        r.note("no separate option pass")
+    else:
+        cmd_param = [x for x in q.param_names(po) if "command" in x]
+        ctx.require(cmd_param, "process_options has no command parameter")
+        cp = cmd_param[0]
+        rebinds = [n for n in walk_no_nested(po.node) if isinstance(n, (ast.Assign, ast.AugAssign)) and any(isinstance(t, ast.Name) and t.id == cp for t in (n.targets if isinstance(n, ast.Assign) else [n.target]))]
+        if rebinds:
+            r.fail(po, rebinds[0], norm(rebinds[0]), "the option pass replaces the selected command (%s): an option named like a sub-command changes the selection" % norm(rebinds[0]))
+        else:
+            r.ok("%s: %s never rebound" % (po.short, cp))
+        for ret in q.returns(po):
+            if ret.value is None:
+                continue
+            args_ok = isinstance(ret.value, ast.Call) and any(isinstance(a, ast.Name) and a.id == cp for a in ret.value.args)
+            if args_ok:
+                r.ok("%s: hands %s on to %s" % (po.short, cp, norm(ret.value.func)))
+            else:
+                r.fail(po, ret, norm(ret), "the option pass returns something that is not derived from the command it was given")
+
+    # ---------------------------------------------------------------- R9
+    r = ctx.rule("C03-R9", "SIBLING", "the markers 'default' and 'anonymous' of a command config are always written "
+                 "together (marking a command default makes it reachable by name again)", reference=3)
+    cc = ctx.cls("clikit.api.config.command_config.CommandConfig")
+    marker_methods = {}
+    for name in ("default", "anonymous"):
+        m = cc.methods.get(name)
+        ctx.require(m is not None, "CommandConfig.%s missing" % name)
+        marker_methods[name] = {t.attr for n in walk_no_nested(m.node) if isinstance(n, ast.Assign) for t in n.targets if is_self_attr(t)}
+    union = set().union(*marker_methods.values())
+    for name, fields in sorted(marker_methods.items()):
+        if fields == union:
+            r.ok("CommandConfig.%s writes %s" % (name, sorted(fields)))
+        else:
+            m = cc.methods[name]
+            r.fail(m, m.node, "CommandConfig.%s writes %s" % (name, sorted(fields)), "CommandConfig.%s() does not write %s: a config that was marked with the other "
+                   "marker before keeps its old value (e.g. stays anonymous, unreachable by name)" % (name, sorted(union - fields)))
+    d = cc.methods["default"]
+    anon_false = [n for n in walk_no_nested(d.node) if isinstance(n, ast.Assign) and any(is_self_attr(t, "_anonymous") for t in n.targets) and isinstance(n.value, ast.Constant) and n.value.value is False]
+    if anon_false:
+        r.ok("CommandConfig.default() clears the anonymous marker")
+
+    # ---------------------------------------------------------------- R10
+    r = ctx.rule("C03-R10", "ORDER", "a command with default sub-commands continues into them: the command itself is "
+                 "selected only when there is no default sub-command result at all", reference=1)
+    pds = res.methods.get("process_default_sub_commands")
+    ctx.require(pds is not None, "process_default_sub_commands missing")
+    cfg = ctx.cfg(pds)
+    res_var = None
+    for n in walk_no_nested(pds.node):
+        if isinstance(n, ast.Assign) and isinstance(n.value, ast.Call) and isinstance(n.value.func, ast.Attribute) and n.value.func.attr == "process_default_commands":
+            res_var = n.targets[0].id if isinstance(n.targets[0], ast.Name) else None
+    ctx.require(res_var, "process_default_sub_commands does not ask for the default sub-commands")
+    own = [n for n in cfg.nodes if n.kind == "return" and isinstance(n.ast.value, ast.Call) and norm(n.ast.value.func).endswith("ResolveResult")]
+    t_edges = [e for e in cfg.nodes if e.kind == "T" and isinstance(e.ast, ast.Name) and e.ast.id == res_var]
+    if not t_edges:
+        r.fail(pds, pds.node, "no test of the default result", "the result of the default sub-commands is never tested")
+    for o in own:
+        leak = [t for t in t_edges if o.id in cfg.reach([t.id])]
+        if leak:
+            r.fail(pds, o.ast, norm(o.ast), "the command itself can be selected although a default sub-command was found (an extra condition on the default's result): "
+                   "its parse error is hidden and the parent's handler runs")
+        else:
+            r.ok("%s: own result only when no default sub-command exists" % pds.short)
     return ctx.results
 
 
